@@ -34,6 +34,11 @@ pub struct SDesc {
     /// must give the same rule set)
     #[serde(default)]
     pub register_via: u8,
+    /// build the settings value through `TypeGeneratorSettings::new()` and its builder methods
+    /// (`type_mod_name`, `should_gen_docs`, `compact_type_path`, `substitute`, ...) wherever one
+    /// exists, instead of writing the struct's fields
+    #[serde(default)]
+    pub via_builders: bool,
 }
 
 pub const LSB0_TARGET: &str = "::vrt::bits::Lsb0";
@@ -57,6 +62,7 @@ impl Default for SDesc {
                 ("bitvec::order::Msb0".into(), MSB0_TARGET.into()),
             ],
             register_via: 0,
+            via_builders: false,
         }
     }
 }
@@ -126,6 +132,47 @@ impl SDesc {
                     substitutes.insert(p(from), absolute_path(p(to)).expect("absolute target")).expect("valid substitute");
                 }
             }
+        }
+        if self.via_builders {
+            let mut s = TypeGeneratorSettings::new().type_mod_name(&self.root).should_gen_docs(self.docs);
+            if let Some(x) = &self.bits_path {
+                s = s.decoded_bits_type_path(p(x));
+            }
+            if let Some(x) = &self.compact_as_path {
+                s = s.compact_as_type_path(p(x));
+            }
+            if let Some(x) = &self.compact_path {
+                s = s.compact_type_path(p(x));
+            }
+            if self.codec_attrs {
+                s = s.insert_codec_attributes();
+            }
+            // global derives through the settings' own builder, the rest of the registry as built above
+            let mut rest = DerivesRegistry::new();
+            rest.add_attributes_for_all(self.global_attrs.iter().map(|a| attr(a)));
+            for sp in &self.specific {
+                let tp: syn::TypePath = syn::parse_str(&sp.path).unwrap();
+                if !sp.derives.is_empty() {
+                    rest.add_derives_for(tp.clone(), sp.derives.iter().map(|d| p(d)), sp.recursive);
+                }
+                if !sp.attrs.is_empty() {
+                    rest.add_attributes_for(tp.clone(), sp.attrs.iter().map(|a| attr(a)), sp.recursive);
+                }
+            }
+            s.derives = rest;
+            s = s.add_derives_for_all(self.global_derives.iter().map(|d| p(d)));
+            if self.register_via == 0 {
+                for (from, to) in &self.substitutes {
+                    s = s.substitute(p(from), p(to));
+                }
+            } else {
+                s.substitutes = substitutes;
+            }
+            s.alloc_crate_path = match &self.alloc {
+                None => AllocCratePath::Std,
+                Some(a) => AllocCratePath::Custom(p(a)),
+            };
+            return s;
         }
         TypeGeneratorSettings {
             types_mod_ident: syn::parse_str(&self.root).unwrap(),
